@@ -19,6 +19,7 @@ from onnx_ir.passes.common import shape_inference as _shape_mod
 
 from irsim import invariants, modelgen, snapshot
 from irsim.world import World
+from simcore import knobs as _knobs
 from simcore.prng import Streams, digest
 
 logging.getLogger("onnx_ir").setLevel(logging.CRITICAL)
@@ -89,7 +90,7 @@ EXCS = {"ValidationError": lambda: onnx.checker.ValidationError("injected"), "Ru
 def gen_case(run_seed: int, tier: str, index: int = 0) -> dict:
     r = Streams(run_seed).rng("workload")
     params = dict(
-        p_graphs=Streams(run_seed).rng("graphs-attr").choice([0.0, 0.0, 0.12, 0.25]), ref_graph_attrs=Streams(run_seed).rng("ref-graph-attrs").choice([0.0, 0.0, 0.6]), n_nodes=r.choice([2, 4, 6, 9, 14]), n_inputs=r.choice([0, 1, 2, 3]), n_inits=r.choice([0, 1, 2, 4]), n_outputs=r.choice([1, 2, 3]),
+        p_graphs=Streams(run_seed).rng("graphs-attr").choice([0.0, 0.0, 0.12, 0.25]), ref_graph_attrs=Streams(run_seed).rng("ref-graph-attrs").choice([0.0, 0.0, 0.6]), hinted_inputs=Streams(run_seed).rng("hinted-inputs").choice([0.0, 0.0, 0.6]), n_nodes=r.choice([2, 4, 6, 9, 14]), n_inputs=r.choice([0, 1, 2, 3]), n_inits=r.choice([0, 1, 2, 4]), n_outputs=r.choice([1, 2, 3]),
         n_functions=r.choice([0, 1, 2]), depth=r.choice([0, 1, 2]), typed=r.random() < 0.8, p_if=r.choice([0.1, 0.3]), p_dup=r.choice([0.2, 0.5]),
         p_const=r.choice([0.1, 0.3]), p_unused=r.choice([0.1, 0.4]), metadata=r.random() < 0.5, big_init=r.random() < 0.4, dup_inits=r.random() < 0.4,
         unused_function=r.random() < 0.3, init_as_input=r.choice([0.0, 0.3, 1.0]), name_noise=r.choice([0.0, 0.0, 0.3]), unsorted=r.random() < 0.25, name_style=r.choice([0, 0, 1]), func_name_overlap=r.choice([0.0, 0.0, 0.5, 1.0]),
@@ -137,7 +138,7 @@ def gen_case(run_seed: int, tier: str, index: int = 0) -> dict:
         reuse = True
         first = dr.choice(["RemoveUnusedFunctions", "RemoveUnusedFunctions", "Inline", "RemoveUnusedOpsets", "RemoveUnusedNodes"])
         schedule.insert(0, {"pass": first, "opt": 0, "mode": "single", "fault": None, "via_result": False, "sibling_first": True})
-    return {"property": PROPERTY, "run_seed": run_seed, "model_seed": model_seed, "params": params, "schedule": schedule, "reuse_pass_objects": reuse}
+    return {"property": PROPERTY, "warnings_error": _knobs.warnings_knob(run_seed), "run_seed": run_seed, "model_seed": model_seed, "params": params, "schedule": schedule, "reuse_pass_objects": reuse}
 
 
 class _Boundary:
@@ -358,6 +359,11 @@ def _build(step):
 
 
 def run_case(case: dict) -> dict:
+    with _knobs.interpreter(case):
+        return _run_case(case)
+
+
+def _run_case(case: dict) -> dict:
     stats: dict = {}
     res = {"violation": None, "error": None, "stats": stats, "steps": 0, "distinct": [], "states": [], "case": case}
 
